@@ -8,6 +8,7 @@ non-repeatable, anchor-free patterns repeatable."""
 from .. import vcrun
 from . import _b1
 from ._groups import EXC
+from . import _f7
 
 LEVEL = "proof"
 P = "pregex.core.pre.Pregex."
@@ -17,6 +18,7 @@ FUNCS = [P + n for n in ("optional", "indefinite", "one_or_more", "exactly", "at
 
 def run(rep, tier):
     vcrun.run_functions(rep, FUNCS + EXC, tier)
+    _f7.decide(rep)      # F7: type and repeatable flag of EVERY literal string (regular-language facts about the real regexes)
     _b1.run(rep, tier, ["flag", "total"], "repeatable flag of every emitted text")
     rep.trusted += ["assumed contract of Pregex.__infer_type for the VALUE of the repeatable flag: bounded stand-in B1 only",
                     "VC generator pvc/symex.py + encoding E1-E12", "z3 5.1"]
